@@ -53,7 +53,7 @@ def nested_state(draw):
     for i in range(n):
         d = draw(st.sampled_from(DIRS))
         ext = draw(st.sampled_from([".py", ".py", ".c", ".txt"]))
-        own = draw(st.sampled_from(["none", "none", "cop", "lic", "both", "stacked", "two-lic"]))
+        own = draw(st.sampled_from(["none", "none", "cop", "lic", "both", "stacked", "two-lic", "commuted"]))
         p = f"{d}/f{i}{ext}" if d else f"f{i}{ext}"
         style = {".py": "python", ".c": "c", ".txt": "none"}[ext]
         cop = [f"SPDX-FileCopyrightText: 20{i:02d} Holder {i}"] if own in ("cop", "both", "two-lic") else []
@@ -61,6 +61,12 @@ def nested_state(draw):
         if own == "two-lic":
             a, b, c_ = draw(st.permutations(ids))[:3]
             lic = [f"{a} OR {b}", f"{b} OR {c_}", f"{c_} AND {a}"]
+        if own == "commuted":
+            # two tags that state one expression with the operands in different order (equal to the expression library): which spelling is
+            # reported must not depend on the hash seed
+            a, b = draw(st.permutations(ids))[:2]
+            cop = [f"SPDX-FileCopyrightText: 20{i:02d} Holder {i}"]
+            lic = [f"{a} AND {b}", f"{b} AND {a}"] if draw(st.booleans()) else [f"{a} OR {b}", f"{b} OR {a}", f"{b}  OR {a}"]
         if own == "stacked":
             files[p] = f"/* SPDX-FileCopyrightText: 2020 Stacked {i} */-->\n<!-- SPDX-License-Identifier: MIT -->*/\nbody\n"
         else:
